@@ -74,7 +74,7 @@ const (
 	sLoop     // neither
 	sPostOnly // For(nil, post, body)
 	sCombine
-	sIte // state-dependent branch
+	sIte   // state-dependent branch
 	sTwice // one Seq value used twice
 )
 
@@ -199,6 +199,37 @@ func randomShape(r *rand.Rand, size int) *shape {
 	return &shape{k: k, a: randomShape(r, size-1)}
 }
 
+// latePanic: a loop whose first iterations yield and whose later iteration panics (the condition of the branch
+// counts its evaluations), so that a consumer that recovers and advances again re-enters a loop activation a
+// panic has unwound through
+func (d *deco) latePanic() *CTerm {
+	r := d.r
+	yielding := &CTerm{K: KBind, V: d.ve(), Th: d.script(true), A: d.decorate(randomShape(r, 1+r.Intn(2)))}
+	boom := d.script(false)
+	boom.Pn = []string{"boom", "bang", "pow", "nil"}[r.Intn(4)]
+	bad := &CTerm{K: KDelay, Th: boom, A: d.decorate(randomShape(r, 1))}
+	ic := d.cond()
+	body := &CTerm{K: KIte, C: ic, A: yielding, B: bad}
+	if r.Intn(3) == 0 {
+		body = &CTerm{K: KCombine, A: &CTerm{K: KBind, V: d.ve(), Th: d.script(false), A: &CTerm{K: KNormal}}, B: body}
+	}
+	lc := d.cond()
+	lc.N = ic.N + 2 + r.Intn(2)
+	t := &CTerm{K: KLoop, C: lc, A: body}
+	if r.Intn(2) == 0 {
+		p := d.script(false)
+		t.P = &p
+	}
+	switch r.Intn(4) {
+	case 0:
+		t = &CTerm{K: KCombine, A: t, B: &CTerm{K: KBind, V: d.ve(), Th: d.script(false), A: &CTerm{K: KNormal}}}
+	case 1:
+		oc := d.cond()
+		t = &CTerm{K: KLoop, C: oc, A: t}
+	}
+	return t
+}
+
 // Random: n finite terms with sizes in [lo, hi]
 func Random(n, lo, hi int, seed int64, panics bool) []*CTerm {
 	r := rand.New(rand.NewSource(seed))
@@ -206,6 +237,12 @@ func Random(n, lo, hi int, seed int64, panics bool) []*CTerm {
 	for tries := 0; len(out) < n && tries < 50*n; tries++ {
 		s := randomShape(r, lo+r.Intn(hi-lo+1))
 		d := &deco{r: r, panics: panics}
+		if panics && r.Intn(8) == 0 {
+			if t := d.latePanic(); Finite(t) {
+				out = append(out, t)
+			}
+			continue
+		}
 		t := d.decorate(s)
 		if Finite(t) {
 			out = append(out, t)
